@@ -119,7 +119,7 @@ fn is_scheme_pattern(p: &str) -> bool {
 fn degenerate(rule: &str) -> bool {
     let sp = split(rule);
     let core = sp.body.to_ascii_lowercase();
-    if core.is_empty() || core.contains("^^") || core.contains('\\') || core.contains('\n') || core.contains('$') {
+    if core.is_empty() || core.contains("^^") || core.contains('\n') || core.contains('$') {
         return true;
     }
     if core.starts_with('*') || core.ends_with('*') {
